@@ -346,9 +346,9 @@ func (g *gen) malformed() Snip {
 }
 
 func (prop) Generate(r *core.RNG, tier string) []json.RawMessage {
-	n := 5000
+	n := 4000
 	if tier == "thorough" {
-		n = 30000
+		n = 20000
 	}
 	var out []json.RawMessage
 	for _, s := range fixed() {
